@@ -23,6 +23,7 @@ const Mod = "github.com/libp2p/go-libp2p/"
 
 // Ctx is the loaded, type-checked and SSA-lowered program.
 type Ctx struct {
+	callersOf map[*ssa.Function][]*ssa.Function
 	RepoDir string
 	Fset    *token.FileSet
 	Pkgs    []*packages.Package // packages of the main module (non-test)
